@@ -192,7 +192,27 @@ let run_l2 id line =
        (match List.nth ops k, o.o2_res with Write _, (ROk | RErr _) -> Printf.printf "U %d %d\n" k (int_of_n o.o2_usage) | _ -> ())) obs);
   print_endline "."
 
+let run_spec id line =
+  let tokens = String.split_on_char ' ' line in
+  let tbl = kv line in
+  let sels = List.map (fun v -> match String.split_on_char '~' v with
+      | _ :: st :: _ -> parse_selector st | _ -> failwith "sel") (values tokens "sel") in
+  let doc = List.concat (List.filter_map (function Write b -> Some b | End -> None) (parse_ops (get tbl "ops" "E"))) in
+  Printf.printf "C %s\n" id;
+  List.iter (fun (loc, ids) ->
+    Printf.printf "M %d%s\n" (int_of_nat loc) (String.concat "" (List.map (fun i -> " " ^ string_of_int (int_of_nat i)) ids)))
+    (css_expected sels doc);
+  print_endline "."
+
 let () =
+  if Array.length Sys.argv > 1 && Sys.argv.(1) = "spec" then
+    (try while true do
+      let line = input_line stdin in
+      match String.split_on_char ' ' line with
+      | "L2" :: id :: _ -> (try run_spec id line with Failure m -> Printf.printf "C %s\nX spec-driver-failure %s\n.\n" id m)
+      | _ -> ()
+    done with End_of_file -> ())
+  else
   try while true do
     let line = input_line stdin in
     match String.split_on_char ' ' line with
